@@ -38,7 +38,9 @@ CHECKS.update({
     "C17": {"category": "proof",
             "text": "dtype obligations of in_units/to/convert_to_units are decided for the whole dtype lattice "
                     "(symbolic kind and itemsize): integers go to the float of the same item size (>=16 bit) or the "
-                    "call raises, floats keep their width, complex stays complex, copy and in-place routes agree",
+                    "call raises, floats keep their width, complex stays complex, copy and in-place routes agree; an integer element "
+            "beyond the exact range of the float of its width (2^11, 2^24, 2^53: IEEE 754) is announced by a RuntimeWarning "
+            "(ghost event); to_value returns the reading in the requested unit (ndarray / Python float)",
             "note": TRUST + "; NumPy dtype/promotion rules are assumed contracts (numpy-dtype)", "technique": TECH},
     "C18": {"category": "proof",
             "text": "normal and exceptional frame conditions proved from the real bodies: conversion routes (in_units/to copy, "
@@ -172,11 +174,15 @@ CHECKS["C09"] = {
             "inputs, integer input of the copying form). Every NumPy call inside a formula goes through "
             "unyt_array.__array_ufunc__ by contract (the proved configuration of that call: quantity / scalar operands, one "
             "object passed twice, out= naming an operand or a view of its memory); there-and-back and via-intermediate are 58 "
-            "lemmas over the proved postconditions; the final conversion to the requested unit is the in_units contract (C03). "
-            "Bounded only: the value law of lorentz (the subtraction contract gives no exact law when the pure-number unit of an "
-            "intermediate result is within 1e-9 of 1), effective_temperature (np.power has no contract), the entry points "
-            "to_equivalent / convert_to_equivalent / to_value and floating-point residuals: driver over all 9 equivalences x 32 "
-            "directions x units x parameters x 9 call forms",
+            "lemmas over the proved postconditions. The entry points to_equivalent (copy) and convert_to_equivalent (in place) "
+            "are proved for an ARBITRARY target unit string (memoised or parsed; any dimension, scale and zero point): the value "
+            "returned is the formula's value expressed in the requested unit, zero point included, or a plain conversion when "
+            "the dimensions agree; nothing else returns; the copying form leaves its input untouched, a refused in-place request "
+            "leaves it as it was. Bounded only: the value law of lorentz (the subtraction contract gives no exact law when the "
+            "pure-number unit of an intermediate result is within 1e-9 of 1), effective_temperature (np.power has no contract), "
+            "the spellings to(.., equivalence=) / in_units(.., equivalence=) / convert_to_units(.., equivalence=) (one more "
+            "forwarding step) and floating-point residuals: driver over all 9 equivalences x 32 directions x units x parameters "
+            "x 9 call forms",
     "note": TRUST + "; unyt.physical_constants.<X> are symbolic positive quantities of the right dimension (their values are "
             "C15's business); machine integers are mathematical (unsigned wrap-around in a formula is invisible to the "
             "proof: bounded driver c17/c09)" + UFUNC_NOTE,
